@@ -584,6 +584,12 @@ func init() {
 		}
 		return notHandled
 	}
+	externals["strconv.AppendInt"] = func(fr *frame, args []value) value {
+		if r, ok := opaqueInt(fr, args[1]); ok {
+			return fr.i.appendValues(args[0].([]value), strBytes(r), types.Typ[types.Uint8])
+		}
+		return notHandled
+	}
 	externals["strconv.FormatUint"] = func(fr *frame, args []value) value {
 		if allConcrete(args) {
 			return strconv.FormatUint(args[0].(uint64), args[1].(int))
